@@ -6,7 +6,7 @@ From FT.lib Require Import Num Arr ArrLemmas Lower NumArr.
 From FT.gen Require Import Common Interp2d Interp3d Vinterp2d Vinterp3d FteikCommon Fteik2d Fteik3d Ray2d Ray3d.
 From FT.model Require Import Api.
 From FT.proofs Require Import SSR InterpR Interp3R VinterpR Vinterp3R TranslateR ApiProofs.
-From FT.proofs Require ApiGenEq.
+From FT.proofs Require ApiGenEq RayTranslate.
 Import ListNotations.
 Open Scope R_scope.
 
@@ -956,6 +956,98 @@ Theorem C06_solver_arguments_with_omitted_origin_3d :
        (solve_args grid gridsize [nofZ 0; nofZ 0; nofZ 0] src, nsweep, rg).
 Proof. exact @ApiGenEq.gen_solve_args_3d_default_origin. Qed.
 
+(* exact arithmetic, both modes, every end point, source, step, budget and fuel: tracing on translated axes with translated end point and source returns the same count (-1, -2 included) and every stored row is the original row plus the vector (hull test, cell location, clamps, shrink factor, grid magnetism, stopping test and nfree_max are all translation invariant) *)
+Theorem C06_ray_core_translates_with_the_frame_2d :
+  forall (a b : R) (z x zgrad xgrad : arr R) (nz nx : Z) (zend xend zsrc xsrc stepsize : R) (M : Z) (hg : bool),
+       axis z nz ->
+       axis x nx ->
+       shape zgrad = [nz; nx] ->
+       shape xgrad = [nz; nx] ->
+       forall (fuel : nat) (ray : arr R) (c : Z),
+       u_ray2d_core_v fuel z x zgrad xgrad zend xend zsrc xsrc stepsize M hg = Ok (ray, c) ->
+       exists ray' : arr R,
+         u_ray2d_core_v fuel (shift_axis a z) (shift_axis b x) zgrad xgrad (a + zend) (b + xend) 
+           (a + zsrc) (b + xsrc) stepsize M hg = Ok (ray', c) /\
+         shape ray' = shape ray /\
+         length (dat ray') = length (dat ray) /\
+         (forall k j : Z,
+          (0 <= k <= c)%Z -> (0 <= j < 2)%Z -> get 0 ray' [k; j] = nth (Z.to_nat j) [a; b] 0 + get 0 ray [k; j]) /\
+         ((-1 <= c)%Z -> forall k j : Z, (c < k < M)%Z -> (0 <= j < 2)%Z -> get 0 ray' [k; j] = get 0 ray [k; j]).
+Proof. exact @RayTranslate.ray2d_core_translate_rows. Qed.
+
+(* entry point ray2d: the returned polyline is the original plus the vector, or the same exception *)
+Theorem C06_ray_polyline_translates_with_the_frame_2d :
+  forall (a b : R) (z x zgrad xgrad : arr R) (nz nx : Z) (p src : arr R) (stepsize : R) 
+         (M : Z) (hg : bool) (fuel : nat),
+       axis z nz ->
+       axis x nx ->
+       shape zgrad = [nz; nx] ->
+       shape xgrad = [nz; nx] ->
+       Ray2dProofs.vec2 p ->
+       Ray2dProofs.vec2 src ->
+       match ray2d_1 fuel z x zgrad xgrad p src stepsize M hg with
+       | Ok r =>
+           ray2d_1 fuel (shift_axis a z) (shift_axis b x) zgrad xgrad (RayTranslate.vsh [a; b] p)
+             (RayTranslate.vsh [a; b] src) stepsize M hg = Ok (RayTranslate.addvec [a; b] r)
+       | Raise e =>
+           ray2d_1 fuel (shift_axis a z) (shift_axis b x) zgrad xgrad (RayTranslate.vsh [a; b] p)
+             (RayTranslate.vsh [a; b] src) stepsize M hg = Raise e
+       | OutOfFuel =>
+           ray2d_1 fuel (shift_axis a z) (shift_axis b x) zgrad xgrad (RayTranslate.vsh [a; b] p)
+             (RayTranslate.vsh [a; b] src) stepsize M hg = OutOfFuel
+       end.
+Proof. exact @RayTranslate.ray2d_1_translate. Qed.
+
+(* 3D *)
+Theorem C06_ray_core_translates_with_the_frame_3d :
+  forall (a b c : R) (z x y zgrad xgrad ygrad : arr R) (nz nx ny : Z) (zend xend yend zsrc xsrc ysrc stepsize : R)
+         (M : Z) (hg : bool),
+       axis z nz ->
+       axis x nx ->
+       axis y ny ->
+       shape zgrad = [nz; nx; ny] ->
+       shape xgrad = [nz; nx; ny] ->
+       shape ygrad = [nz; nx; ny] ->
+       forall (fuel : nat) (ray : arr R) (k : Z),
+       u_ray3d_core_v fuel z x y zgrad xgrad ygrad zend xend yend zsrc xsrc ysrc stepsize M hg = Ok (ray, k) ->
+       exists ray' : arr R,
+         u_ray3d_core_v fuel (shift_axis a z) (shift_axis b x) (shift_axis c y) zgrad xgrad ygrad 
+           (a + zend) (b + xend) (c + yend) (a + zsrc) (b + xsrc) (c + ysrc) stepsize M hg = 
+         Ok (ray', k) /\
+         shape ray' = shape ray /\
+         length (dat ray') = length (dat ray) /\
+         (forall i j : Z,
+          (0 <= i <= k)%Z -> (0 <= j < 3)%Z -> get 0 ray' [i; j] = nth (Z.to_nat j) [a; b; c] 0 + get 0 ray [i; j]) /\
+         ((-1 <= k)%Z -> forall i j : Z, (k < i < M)%Z -> (0 <= j < 3)%Z -> get 0 ray' [i; j] = get 0 ray [i; j]).
+Proof. exact @RayTranslate.ray3d_core_translate_rows. Qed.
+
+(* 3D *)
+Theorem C06_ray_polyline_translates_with_the_frame_3d :
+  forall (a b c : R) (z x y zgrad xgrad ygrad : arr R) (nz nx ny : Z) (p src : arr R) 
+         (stepsize : R) (M : Z) (hg : bool) (fuel : nat),
+       axis z nz ->
+       axis x nx ->
+       axis y ny ->
+       shape zgrad = [nz; nx; ny] ->
+       shape xgrad = [nz; nx; ny] ->
+       shape ygrad = [nz; nx; ny] ->
+       Ray3dProofs.vec3 p ->
+       Ray3dProofs.vec3 src ->
+       match ray3d_1 fuel z x y zgrad xgrad ygrad p src stepsize M hg with
+       | Ok r =>
+           ray3d_1 fuel (shift_axis a z) (shift_axis b x) (shift_axis c y) zgrad xgrad ygrad
+             (RayTranslate.vsh [a; b; c] p) (RayTranslate.vsh [a; b; c] src) stepsize M hg =
+           Ok (RayTranslate.addvec [a; b; c] r)
+       | Raise e =>
+           ray3d_1 fuel (shift_axis a z) (shift_axis b x) (shift_axis c y) zgrad xgrad ygrad
+             (RayTranslate.vsh [a; b; c] p) (RayTranslate.vsh [a; b; c] src) stepsize M hg = 
+           Raise e
+       | OutOfFuel =>
+           ray3d_1 fuel (shift_axis a z) (shift_axis b x) (shift_axis c y) zgrad xgrad ygrad
+             (RayTranslate.vsh [a; b; c] p) (RayTranslate.vsh [a; b; c] src) stepsize M hg = OutOfFuel
+       end.
+Proof. exact @RayTranslate.ray3d_1_translate. Qed.
+
 Print Assumptions C06_axis_shift.
 Print Assumptions C06_searchsorted_commutes_with_translation.
 Print Assumptions C06_interp2d_translate.
@@ -975,3 +1067,7 @@ Print Assumptions C06_omitted_origin_is_zero_vector_2d.
 Print Assumptions C06_omitted_origin_is_zero_vector_3d.
 Print Assumptions C06_solver_arguments_with_omitted_origin_2d.
 Print Assumptions C06_solver_arguments_with_omitted_origin_3d.
+Print Assumptions C06_ray_core_translates_with_the_frame_2d.
+Print Assumptions C06_ray_polyline_translates_with_the_frame_2d.
+Print Assumptions C06_ray_core_translates_with_the_frame_3d.
+Print Assumptions C06_ray_polyline_translates_with_the_frame_3d.
